@@ -285,11 +285,85 @@ def setup():
                     if 'Semantic errors' in p.stdout or 'Parse Error' in p.stdout or p.returncode != 0:
                         print(p.stdout[-2000:])
                         return 2
-        print('setup ok')
-        return 0
+        print('setup: harness builds, all modules parse')
+        rc = selftest()
+        print('setup ok' if rc == 0 else 'setup FAILED')
+        return rc
     finally:
         run.cleanup()
 
 
 def selftest():
-    return 0
+    """Demonstrates that the binding is live: a good recorded trace is accepted, and each of four corruptions
+    (a captured parameter, an Allow header, a reply kind, a removed Handle line) is rejected by the trace specification."""
+    import vlib, json, copy
+    ALL = ['C01', 'C02', 'C03', 'C04', 'C05', 'C08', 'C09', 'C17', 'C18']
+    run = vlib.Run('selftest', 'quick', 0)
+    try:
+        g = vlib.stage_gen(run, gen_bfs('T', 1))
+        wd = run.sub('st')
+        binp = vlib.build_harness(run)
+        cases = vlib.shard_cases(g, wd, 1)[0]
+        trace = os.path.join(wd, 'trace-good.ndjson')
+        rc, stats, err = vlib.run_harness(binp, cases, trace, nodedup=True)
+        if rc != 0:
+            print('selftest: harness failed', err)
+            return 2
+        mism, n = vlib.validate_shard(run, wd, 'Trace_Router', trace, ALL)
+        if mism:
+            print('selftest: the unmodified trace is not accepted:', json.dumps(mism[0])[:500])
+            return 2
+        lines = open(trace).read().splitlines()
+
+        def variant(name, edit):
+            out = edit([json.loads(l) for l in lines])
+            if out is None:
+                print('selftest: no line to corrupt for', name)
+                return False
+            f = os.path.join(wd, 'trace-%s.ndjson' % name)
+            open(f, 'w').write('\n'.join(json.dumps(e) for e in out) + '\n')
+            mm, _ = vlib.validate_shard(run, wd, 'Trace_Router', f, ALL)
+            print('selftest: %-14s -> %d disagreement(s) reported%s' % (name, len(mm), '' if mm else '  ** NOT REJECTED **'))
+            return bool(mm)
+
+        def first(evs, pred):
+            for i, e in enumerate(evs):
+                if pred(e):
+                    return i
+            return None
+
+        def e_param(evs):
+            i = first(evs, lambda e: e.get('ev') == 'serve' and e['r']['kind'] == 'route' and e['r']['params'])
+            if i is None:
+                return None
+            k = sorted(evs[i]['r']['params'])[0]
+            evs[i]['r']['params'][k] += 'x'
+            return evs
+
+        def e_allow(evs):
+            i = first(evs, lambda e: e.get('ev') == 'serve' and e['r']['kind'] == 'opt' and e['r']['pat'] != '')
+            if i is None:
+                return None
+            evs[i]['r']['allowH'] = [m for m in evs[i]['r']['allowH'] if m != 'OPTIONS'] + ['PATCH']
+            return evs
+
+        def e_kind(evs):
+            i = first(evs, lambda e: e.get('ev') == 'serve' and e['r']['kind'] == '405')
+            if i is None:
+                return None
+            evs[i]['r']['kind'] = '404'
+            evs[i]['r']['hasNode'] = False
+            evs[i]['r']['pat'] = ''
+            return evs
+
+        def e_drop(evs):
+            i = first(evs, lambda e: e.get('ev') == 'handle' and e.get('res') == 'ok')
+            if i is None:
+                return None
+            return evs[:i] + evs[i + 1:]
+
+        ok = all([variant('param', e_param), variant('allow', e_allow), variant('kind', e_kind), variant('dropped-op', e_drop)])
+        print('selftest: good trace accepted (%d events); binding %s' % (n, 'LIVE' if ok else 'BROKEN'))
+        return 0 if ok else 2
+    finally:
+        run.cleanup()
